@@ -338,7 +338,7 @@ func c07Porcupine(r *hx.Run, w *W, rnd *rand.Rand, in c07Inst, n int) {
 }
 
 func c07(r *hx.Run) {
-	r.Rule = "histories per configured period {1s,2s,5m,0s,-3s,500ms,90s} (non-positive and sub-second => 300 s): 3-6 periods started by a probe answered uncacheable/no Cache-Control/5xx/protocol error/truncated body (handler abort)/cacheable, bursts of 1-24 at mark+0, +1, +P-1, +P (still pass) and +P+1 (single probe), all upstream contacts of a burst held at the origin until they are in flight together (=> not queued) or hooked state shows requests parked; plus staggered porcupine histories with a concurrent clock advancer. Non-trivial = history with >=1 pass burst fully overlapping at the origin; distinct = trace."
+	r.Rule = "histories per configured period {1s,2s,5m,0s,-3s,500ms,90s} (non-positive and sub-second => 300 s), in a third of them the unchanged configuration is applied again inside the period: 3-6 periods started by a probe answered uncacheable/no Cache-Control/5xx/protocol error/truncated body (handler abort)/cacheable, bursts of 1-24 at mark+0, +1, +P-1, +P (still pass) and +P+1 (single probe), all upstream contacts of a burst held at the origin until they are in flight together (=> not queued) or hooked state shows requests parked; plus staggered porcupine histories with a concurrent clock advancer. Non-trivial = history with >=1 pass burst fully overlapping at the origin; distinct = trace."
 	r.Assume = []string{"virtual clock hook", "no eviction (cache 100000 >> keys)", "-race build"}
 	rnd := rand.New(rand.NewSource(r.Seed))
 	w, insts := c07World(r)
